@@ -85,7 +85,12 @@ def a2b(cs):
     """
     @param cs the base-62 encoded data (a string)
     """
-    return a2b_l(cs, num_octets_that_encode_to_this_many_chars(len(cs))*8)
+    os = a2b_l(cs, num_octets_that_encode_to_this_many_chars(len(cs))*8)
+    # Reject anything b2a() could not have produced: characters outside the
+    # alphabet, impossible lengths, and values too large for the result.
+    if b2a(os) != cs:
+        raise ValueError("not a canonical base-62 encoding: %r" % (cs,))
+    return os
 
 def a2b_l(cs, lengthinbits):
     """
